@@ -683,10 +683,46 @@ def _indent_remover_ranges(res, rule, P, b):
     for s in T.nodes(b["tree"], "let"):
         if s["pat"]["p"] == "bind" and s.get("init") is not None and T.render(s["init"]) == seam and "Mut" in s["pat"].get("mode", ""):
             scan = s["pat"]["name"]
+    def leaves(e):
+        e = T.peel(e)
+        if e.get("k") == "match":
+            return [x for a_ in e["arms"] for x in leaves(a_["body"])]
+        if e.get("k") == "if" and e.get("els") is not None:
+            return leaves(e["then"]) + leaves(e["els"])
+        if e.get("k") == "blockexpr" and e["block"].get("tail") is not None and not e.get("label"):
+            return leaves(e["block"]["tail"])
+        return [e]
+    rets = [x for r in rets for x in leaves(r)]
     ok = 0
+
+    def from_scan_result(r):
+        """`(x, seam)` with x bound by a `Some(x)` pattern over the scan written as a value-yielding block / re-inlined helper
+        whose `Some(..)` payloads are the scan cursor or the cursor + 1 (the byte behind the line break that was found)."""
+        if not (r.get("k") == "tuple" and len(r["es"]) == 2 and T.render(r["es"][1]) == seam and T.local_of(r["es"][0]) is not None and scan):
+            return False
+        xid = T.local_of(r["es"][0])
+        for n_ in T.nodes(b["tree"]):
+            scr = None
+            if n_.get("k") == "match":
+                for a_ in n_["arms"]:
+                    pt = a_["pat"]
+                    if pt.get("p") == "tuple_struct" and (pt["res"].get("path") or "").endswith("Some") and len(pt["pats"]) == 1 \
+                            and pt["pats"][0].get("p") == "bind" and pt["pats"][0]["id"] == xid and any(x is r for x in T.nodes(a_["body"])):
+                        scr = n_["scrut"]
+            elif n_.get("k") == "let_cond":
+                pt = n_["pat"]
+                if pt.get("p") == "tuple_struct" and (pt["res"].get("path") or "").endswith("Some") and len(pt["pats"]) == 1 \
+                        and pt["pats"][0].get("p") == "bind" and pt["pats"][0]["id"] == xid:
+                    scr = n_["e"]
+            if scr is None:
+                continue
+            payloads = [T.render(T.peel(c_["args"][0])) for c_ in T.nodes(scr, "call")
+                        if (T.callee(c_) or "").endswith("Some") and len(c_.get("args", [])) == 1]
+            return bool(payloads) and all(p_ in (scan, "(%s + 1)" % scan) for p_ in payloads)
+        return False
     for r in rets:
         txt = T.render(r)
-        if txt in ("(%s, %s)" % (seam, seam),) or (scan and txt == "(%s, %s)" % (scan, seam)):
+        if txt in ("(%s, %s)" % (seam, seam),) or (scan and txt == "(%s, %s)" % (scan, seam)) or from_scan_result(r):
             ok += 1
             res.holds(rule, fn, "return:" + txt)
         else:
